@@ -214,17 +214,18 @@ Everything above is about the descriptions extracted from the code. Whether a de
 one the *format* defines is a matter of reading the standard; one such reading fails: -/
 
 /-- `PreviewHeader` as the format defines it (`Spec.previewHeader`: `w_div8`/`width` only when
-`ratio == 0`) accepts the 14-bit string "not div8, height 100, ratio 1:1" and stops at its end
-(preview 100×100), while the code's `PreviewHeader` goes on to read a `width` that was never
-written. Replayed on the real parser by the differential run (known finding `c14:preview-ratio`). -/
-theorem C14_preview_header_deviates_from_format :
+`ratio == 0`, the shape of `SizeHeader`) **is** the description extracted from the code — since the
+repair of finding `c14:preview-ratio` (before it, the code read a `width` that a conformant writer
+never wrote for `ratio != 0`: the 14-bit string "not div8, height 100, ratio 1:1" ran into EOF). -/
+theorem C14_preview_header_matches_format : Spec.previewHeader = Pinned.PreviewHeader := by
+  rfl
+
+/-- the former witness now parses as the format says: preview 100×100, nothing left over -/
+theorem C14_preview_header_ratio_witness :
     let bits : Bits := [false] ++ toBits 2 1 ++ toBits 8 35 ++ toBits 3 1
-    (match parse Spec.previewHeader [] bits with
-      | .ok (e, r) => r.isEmpty && (Val.record e).get "height" == .nat 100 && (Val.record e).get "width" == .nat 100
-      | .error _ => false) = true ∧
     (match parse Pinned.PreviewHeader [] bits with
-      | .error .eof => true
-      | _ => false) = true := by
+      | .ok (e, r) => r.isEmpty && (Val.record e).get "height" == .nat 100 && (Val.record e).get "width" == .nat 100
+      | .error _ => false) = true := by
   decide +kernel
 
 /-! ## what is not proved here (partial scope)
@@ -304,7 +305,8 @@ def rawImage (xyb : Bool) (cs : Nat) : Env :=
 example : witness Pinned.SizeHeader [] [("div8", .bool true), ("h_div8", .nat 32), ("ratio", .nat 0), ("w_div8", .nat 1)] 4 = true := by decide +kernel
 example : witness Pinned.SizeHeader [] [("div8", .bool false), ("height", .nat 1073741824), ("ratio", .nat 0), ("width", .nat 300)] 4 = true := by decide +kernel
 example : witness Pinned.SizeHeader [] [("div8", .bool false), ("height", .nat 262145), ("ratio", .nat 7)] 3 = true := by decide +kernel
-example : witness Pinned.PreviewHeader [] [("div8", .bool true), ("h_div8", .nat 541), ("ratio", .nat 2), ("w_div8", .nat 33)] 4 = true := by decide +kernel
+example : witness Pinned.PreviewHeader [] [("div8", .bool true), ("h_div8", .nat 541), ("ratio", .nat 2)] 3 = true := by decide +kernel
+example : witness Pinned.PreviewHeader [] [("div8", .bool true), ("h_div8", .nat 541), ("ratio", .nat 0), ("w_div8", .nat 33)] 4 = true := by decide +kernel
 example : witness Pinned.PreviewHeader [] [("div8", .bool false), ("height", .nat 5440), ("ratio", .nat 0), ("width", .nat 65)] 4 = true := by decide +kernel
 example : witness Pinned.AnimationHeader [] [("tps_numerator", .nat 1073741824), ("tps_denominator", .nat 1024), ("num_loops", .nat 4294967295), ("have_timecodes", .bool true)] 4 = true := by decide +kernel
 example : witness Pinned.Customxy [] [("x", .int (-1048576)), ("y", .int 2097151)] 2 = true := by decide +kernel
